@@ -120,7 +120,7 @@ class C03:
     prop = "C03"
     lean_module = "Ogorek.Props.C03"
     theorems = ["Ogorek.C03_roundtrip_bin", "Ogorek.rt_val", "Ogorek.C03_int", "Ogorek.parseDecimal_fmtInt", "Ogorek.toSigned_ofSigned_32",
-                "Ogorek.goEqual_strip", "Ogorek.assignAll_of_keysOK"]
+                "Ogorek.goEqual_strip", "Ogorek.assignAll_of_keysOK", "Ogorek.C03_string_p0", "Ogorek.pyquote_inv", "Ogorek.pyquote_no_lf"]
     trusted_base = TB_COMMON + ["strconv float formatting/parsing as modelled (exact-rational shortest digits, correct rounding); strconv.IsPrint table regenerated from the toolchain"]
     level_text = ("Lean theorem C03_roundtrip_bin, for ALL canonical values (None, bool, int64, *big.Int, float64 of any bit pattern, string, "
                   "ByteString, Bytes, []byte, Class, and lists, Tuples, Calls, Refs, builtin maps and Dicts nested to any depth), protocols "
@@ -131,7 +131,10 @@ class C03:
                   "leave stack, memo and protocol alone), using the number lemmas (C03_int, parseDecimal_fmtInt, toSigned_ofSigned_32), the "
                   "Latin-1 lemma for Bytes below protocol 3, and for maps/Dicts that equality and hashing ignore big-int identity "
                   "(goEqual_strip) so DICT rebuilds the entries (assignAll_of_keysOK). Hypotheses: payloads < 2^32 bytes, keys of one "
-                  "literal pairwise different for the decoder's table. PARTIAL: protocol 0 (text codecs, float text), *big.Int keys of "
+                  "literal pairwise different for the decoder's table. Protocol 0, STRING form: for EVERY byte string the quoting codec is "
+                  "inverted by the decoder's string-escape codec and its output holds no newline, so S\"...\" carries any string / "
+                  "ByteString exactly (pyquote_inv, pyquote_no_lf, C03_string_p0; via a classification of utf8.DecodeRune's answers). "
+                  "PARTIAL: the rest of protocol 0 (raw-unicode-escape codec, float text, the composition), *big.Int keys of "
                   "builtin maps, and the normal forms of non-canonical inputs are not in the theorem; they are tied by correspondence: "
                   "decode(encode(v)) is computed by the implementation and by the model for every generated value x protocol x mode and "
                   "compared with each other and with the documented normal form; the argument is re-rendered after Encode to detect mutation.")
@@ -158,6 +161,19 @@ class C03:
                 v = with_relatives(rng, v)
             for p in (range(6) if ctx.thorough or rng.random() < 0.2 else [rng.randint(0, 5), 0]):
                 out.append((p, pd, su, v))
+        for v in V.edge_string_values():
+            if v[0] == "m":
+                continue
+            for p in ((0, rng.randint(1, 5)) if not ctx.thorough else range(6)):
+                out.append((p, False, v[0] == "Y" or rng.random() < 0.5, v))
+        # payloads beyond 64 KiB (the decoder pre-allocates at most that much and must still read all of it)
+        for n in (65536, 65537, 70001) + ((200001,) if ctx.thorough else ()):
+            pay = bytes((i * 5 + 1) % 127 + 1 for i in range(n))
+            for kind in ("S", "Y", "B", "A"):
+                big = (kind, pay)
+                for p in range(6):
+                    su = kind == "Y" or rng.random() < 0.5
+                    out.append((p, False, su, big if rng.random() < 0.5 else ("l", [("I", 1), big, big])))
         return out
 
     def run(self, ctx):
@@ -255,6 +271,15 @@ class C05:
             ins.append(P.ProgGen(rng, wellformed=rng.random() < 0.9, persid=0.05, maxops=rng.choice([6, 15, 40, 80])).gen())
         # every integer of the lattice (±2^k±{0,1,2}, k <= 70) as int64 / *big.Int result: the re-encoder's
         # width choices (BININT1/2, BININT, text) are decided by these boundaries
+        import struct
+        for n in (65536, 65537, 70001):
+            pay = bytes((i * 3 + 2) % 200 + 32 for i in range(n))
+            ins += [b"T" + struct.pack("<I", n) + pay + b".", b"B" + struct.pack("<I", n) + pay + b".",
+                    b"\x96" + struct.pack("<Q", n) + pay + b".", b"X" + struct.pack("<I", n) + b"u" * n + b"."]
+        # globals whose module / name holds a newline, a carriage return, quotes (only re-encodable from protocol 4 on)
+        for m, n in ((b"m", b"a\n."), (b"m\n", b"n"), (b"m", b"\n"), (b"\nm", b"n\n"), (b"mod", b"a\nb"), (b"m", b"n\r"), (b"m", b"'\"")):
+            sg = b"\x8c" + bytes([len(m)]) + m + b"\x8c" + bytes([len(n)]) + n + b"\x93"
+            ins += [sg + b".", sg + b")R.", b"(" + sg + b"K\x01t.", b"\x80\x04" + sg + b"\x94."]
         for n in V.INT_LATTICE:
             ins.append(P.INT(n) + b".")
             ins.append(b"(" + P.LONG(n) + P.INT(n) + b"t.")
@@ -265,7 +290,7 @@ class C05:
                 if (cfg, data) in seen:
                     continue
                 seen.add((cfg, data))
-                lines.append(f"reenc {cfg} {hexs(data[:16384])}")
+                lines.append(f"reenc {cfg} {hexs(data[:300000])}")
                 meta.append((cfg, data))
         go, lean = run_both(lines)
         for line, (cfg, data), g, l in zip(lines, meta, go, lean):
@@ -370,6 +395,7 @@ class C12:
             out += [("t", [("I", i) for i in range(k)]), ("l", [("I", i) for i in range(k)]),
                     ("m", [(("I", i), ("N",)) for i in range(k)]), ("d", [(("I", i), ("N",)) for i in range(k)]),
                     ("c", b"m", b"n", [("I", i) for i in range(k)])]
+        out += V.edge_string_values()
         for _ in range(n):
             g = V.ValueGen(rng, pydict=rng.random() < 0.5, su=rng.random() < 0.5, canonical=False, maxdepth=rng.choice([1, 2, 3, 4]))
             out.append(g.value())
